@@ -61,9 +61,9 @@ func (w *World) registryRows() ([]regRow, []string) {
 
 // decodeTables of a hand-written UnmarshalXML.
 type decodeTables struct {
-	Attrs    map[string][]string // attribute local name -> receiver field paths stored under its guard
-	Children map[string][]string // child local name -> "field:<path>" / "type:<T>→field:<path>" decoded under its guard
-	Default  []string            // what an unlisted child is decoded into
+	Attrs       map[string][]string // attribute local name -> receiver field paths stored under its guard
+	Children    map[string][]string // child local name -> "field:<path>" / "type:<T>→field:<path>" decoded under its guard
+	Default     []string            // what an unlisted child is decoded into
 	HasAttrLoop bool
 }
 
